@@ -50,6 +50,52 @@ theorem C09_receiver_sessions (f : List α → List β → Except ε (List υ))
   rw [stubRun_wellFlagged f b _ hb]
   simp [RState.init, accPods, accCtrs]
 
+/-- **C09_receiver_restart.** One stub object, restarted. Whatever an earlier session did —
+    any chunks at all, in particular a split synchronisation abandoned after some `more` chunks
+    had been collected — once `close` has run, a later well-flagged session calls the handler
+    exactly once more, with exactly that session's pods and containers: nothing collected before
+    the restart reaches it. -/
+theorem C09_receiver_restart (f : List α → List β → Except ε (List υ))
+    (earlier : List (Chunk α β)) (st : RState α β) (b : List (Chunk α β)) (hb : WellFlagged b) :
+    let st1 := stubClose true (stubRun (some f) st earlier).1
+    (stubRun (some f) st1 b).1 = ⟨none, st1.calls ++ [(allPods b, allCtrs b)]⟩ ∧
+      st1.calls = (stubRun (some f) st earlier).1.calls := by
+  intro st1
+  have h := stubRun_wellFlagged f b st1 hb
+  have e1 : accPods st1 = [] := by simp [st1, stubClose, accPods]
+  have e2 : accCtrs st1 = [] := by simp [st1, stubClose, accCtrs]
+  rw [h, e1, e2]
+  exact ⟨by simp, by simp [st1, stubClose]⟩
+
+/-- An abandoned split session (only `more` chunks) makes no handler call at all, so after the
+    restart the log holds exactly the one call of the new session. -/
+theorem C09_receiver_restart_abandoned (f : List α → List β → Except ε (List υ))
+    (a : List (Chunk α β)) (ha : ∀ c ∈ a, c.more = true) (b : List (Chunk α β))
+    (hb : WellFlagged b) :
+    stubSessions true (some f) RState.init [a, b] = ⟨none, [(allPods b, allCtrs b)]⟩ := by
+  have hcalls : ∀ (a : List (Chunk α β)) (st : RState α β), (∀ c ∈ a, c.more = true) →
+      (stubRun (some f) st a).1.calls = st.calls := by
+    intro a
+    induction a with
+    | nil => intro st _; rfl
+    | cons c rest ih =>
+      intro st hm
+      have hc : c.more = true := hm c (by simp)
+      rw [stubRun_cons]
+      simp only [stubRPC_more f st c hc]
+      rw [ih _ (fun x hx => hm x (by simp [hx]))]
+  obtain ⟨h1, h2⟩ := C09_receiver_restart f a RState.init b hb
+  simp only [stubSessions]
+  rw [h1, h2, hcalls a RState.init ha]
+  simp [stubClose, RState.init]
+
+/-- The seeded defect in the model: a `close` that does not reset. The chunk collected in the
+    abandoned session is delivered to the next session's handler in front of the new state. -/
+theorem restart_without_reset_leaks :
+    (stubSessions false (some fun (_ : List Nat) (_ : List Nat) => (.ok [] : Except Unit (List Unit)))
+      RState.init [[⟨[0], [0, 1], true⟩], [⟨[0], [0], false⟩]]).calls = [([0, 0], [0, 1, 0])] := by
+  decide
+
 /-- A plugin that implements no `Synchronize`: every chunk is echoed, nothing is kept. -/
 theorem C09_receiver_no_handler (chunks : List (Chunk α β)) (st : RState α β) :
     stubRun (none : Handler α β υ ε) st chunks = (st, chunks.map fun c => .ok ⟨[], c.more⟩) :=
